@@ -21,8 +21,19 @@ def run(tier):
                            "TLC checks AbsentIsZero on every transition; the harness replays every behaviour with the model's "
                            "representation and with every absent part replaced by explicit zeros: all parts must agree; "
                            "random accumulator histories recorded on the real crate are validated by TraceCalc.tla",
-                           traces=(kinds, 2500 if tier == "quick" else 30000), extra_jobs=[derivops_run])
+                           traces=(kinds, 2500 if tier == "quick" else 30000),
+                           extra_jobs=[derivops_run] + [lambda k=k, n=n, m=m, i=i: machine_run(k, n, m, "AllOps", depth=3, mant=53, props=False, inner=i,
+                                                                                               loadset="LoadSetNested", workers=3, tag="_zf")
+                                                        for (k, n, m, i) in NESTED_THOROUGH if k.endswith("Vec")])
     dv = extra[0]
+    # nested vector types (DualVec<Dual64>, Dual2Vec<Dual64>): zero-fill replay with zeros of the inner number type
+    for res in extra[1:]:
+        chk.add_tlc(res, "calculator behaviours of a nested vector type, all presence patterns")
+        if res.violated:
+            chk.model_violation(res, "MachineN")
+            continue
+        rep = replay(res, mode="zerofill")
+        absorb_replay(chk, rep, "zero-fill replay (nested vector type)")
     chk.add_tlc(dv, "every public operator of the Derivative container x all absent/present operand combinations: DenseOK "
                     "(the operator commutes with absent |-> zeros), derivative_generic indexing")
     if dv.violated:
